@@ -219,6 +219,7 @@ func runC05(c *Ctx) {
 			"neither addProtocolResponseHeaders nor encodeEnd of this client protocol reads responseEnd.trailers: application trailers never reach this kind of client")
 	}
 
+	defer runC05more(c)
 	// ---- C05.4
 	c.Rule("C05.4", "a gRPC status key read from a map is deleted from that map on every path", 3)
 	for _, fn := range SortedFuncs(reach) {
@@ -256,6 +257,133 @@ func runC05(c *Ctx) {
 			c.Check(okDel, "C05.4", FuncName(fn), "read-then-delete:"+key, call.Pos(),
 				"the status key is deleted from the map it was read from on every path",
 				"status key "+key+" is read but can remain in the map that is then used as application trailers: "+witnessString(p, path))
+		}
+	}
+}
+
+func runC05more(c *Ctx) {
+	p := c.P
+	// ---- C05.5 trailer-key sets are keyed canonically on both the write and the read side
+	c.Rule("C05.5", "the announced-trailer key set is written and looked up with canonical header keys", 2)
+	hk := p.MustNamed("headerKeys")
+	isHK := func(t types.Type) bool { n, ok := t.(*types.Named); return ok && n == hk }
+	canonical := func(v ssa.Value) (bool, string) {
+		ls := Origins(v)
+		if len(ls) == 0 {
+			return false, "no origin"
+		}
+		for _, l := range ls {
+			switch {
+			case l.Kind == "call" && IsCallTo(l.Call, "net/textproto.CanonicalMIMEHeaderKey", "net/http.CanonicalHeaderKey"):
+			case l.Kind == "other":
+				// key of a range over an http.Header (canonical by net/http's construction) or over a headerKeys set
+				ex, ok := l.V.(*ssa.Extract)
+				if !ok {
+					return false, l.String()
+				}
+				nx, ok := ex.Tuple.(*ssa.Next)
+				if !ok || ex.Index != 1 {
+					return false, l.String()
+				}
+				r, ok := nx.Iter.(*ssa.Range)
+				if !ok || !(isHTTPHeader(r.X.Type()) || isHK(r.X.Type())) {
+					return false, l.String()
+				}
+			default:
+				return false, l.String()
+			}
+		}
+		return true, ""
+	}
+	for _, fn := range p.Funcs {
+		ForEachInstr(fn, func(in ssa.Instruction) {
+			switch x := in.(type) {
+			case *ssa.MapUpdate:
+				if isHK(x.Map.Type()) {
+					ok, why := canonical(x.Key)
+					c.Check(ok, "C05.5", FuncName(fn), "set-insert", x.Pos(),
+						"keys enter the trailer-key set in canonical form", "a key is inserted into the announced-trailer set without canonicalisation ("+why+"): a trailer declared in another spelling (lower case after an HTTP/2 hop) is never recognised and is silently dropped")
+				}
+			case *ssa.Lookup:
+				if isHK(x.X.Type()) {
+					ok, why := canonical(x.Index)
+					c.Check(ok, "C05.5", FuncName(fn), "set-lookup", x.Pos(),
+						"the trailer-key set is consulted with a canonical key", "the announced-trailer set is consulted with a key that is not canonical ("+why+")")
+				}
+			}
+		})
+	}
+
+	// ---- C05.6 an end created by header extraction carries the trailers extracted there
+	c.Rule("C05.6", "a response end created while extracting headers carries the trailers extracted there", 2)
+	sph := p.Iface("serverProtocolHandler")
+	endF := p.MustField("responseMeta", "end")
+	trailersF := p.MustField("responseEnd", "trailers")
+	reT := p.MustNamed("responseEnd")
+	seenFn := map[*ssa.Function]bool{}
+	for _, t := range p.Implementers(sph) {
+		m := p.MethodOf(t, "extractProtocolResponseHeaders")
+		for _, fn := range SortedFuncs(p.Reach(m)) {
+			if !p.inScope(fn) || seenFn[fn] || fn.Parent() != nil {
+				continue
+			}
+			seenFn[fn] = true
+			isExtractorCall := func(call ssa.CallInstruction) bool {
+				for _, cal := range p.CalleesAt(call) {
+					if FuncName(cal) == "httpExtractTrailers" || FuncName(cal) == "connectExtractUnaryTrailers" {
+						return true
+					}
+				}
+				return false
+			}
+			hasExtractor := false
+			for _, call := range Calls(fn) {
+				if isExtractorCall(call) {
+					hasExtractor = true
+				}
+			}
+			if !hasExtractor {
+				continue
+			}
+			ForEachInstr(fn, func(in ssa.Instruction) {
+				al, ok := in.(*ssa.Alloc)
+				if !ok || !types.Identical(al.Type().(*types.Pointer).Elem(), reT) {
+					return
+				}
+				// is it stored into responseMeta.end?
+				intoMeta := false
+				for _, ref := range *al.Referrers() {
+					if st, ok := ref.(*ssa.Store); ok && st.Val == ssa.Value(al) {
+						if fa, ok := st.Addr.(*ssa.FieldAddr); ok && FieldOfAddr(fa) == endF {
+							intoMeta = true
+						}
+					}
+				}
+				if !intoMeta {
+					return
+				}
+				c.CountSite()
+				setsTrailers := func(x ssa.Instruction) bool {
+					st, ok := x.(*ssa.Store)
+					if !ok {
+						return false
+					}
+					fa, ok := st.Addr.(*ssa.FieldAddr)
+					if !ok || FieldOfAddr(fa) != trailersF {
+						return false
+					}
+					for _, l := range Origins(st.Val) {
+						if l.Kind == "call" && isExtractorCall(l.Call) {
+							return true
+						}
+					}
+					return false
+				}
+				okT, path := MustPassToExit(fn, al, setsTrailers, IsReturn, nil)
+				c.Check(okT, "C05.6", FuncName(fn), "end-carries-extracted-trailers", al.Pos(),
+					"on every path from creating the end to the return the extracted trailers are stored into it",
+					"header extraction creates a response end but a path returns without putting the extracted trailers into it ("+witnessString(p, path)+"): trailers of a failing backend response are lost because pending trailers are ignored once an end exists")
+			})
 		}
 	}
 }
